@@ -172,7 +172,8 @@ def cutflow(sx, world, n, retry=False):
     cap = sx.concrete(ndef.capacity)
     if n > cap:
         return "too-long"
-    msg = new_message(sx, n, getattr(world, 'long_trick', False))
+    msg = new_message(sx, n, getattr(world, 'long_trick', False),
+                      getattr(world, 'concrete_msg', False))
     for l in world.geometry(n):
         sx.reach(l)
     cut = PowerCut(sx)
